@@ -5,6 +5,7 @@ import (
 	"errors"
 	"fmt"
 	"os"
+	"path/filepath"
 	"strings"
 
 	"github.com/vektra/mockery/v3/config"
@@ -123,6 +124,17 @@ func NewInterfaceCollection(
 	}
 }
 
+// sameFile reports whether two paths, however they are spelled, name the same
+// file.
+func sameFile(a, b string) bool {
+	absA, errA := filepath.Abs(a)
+	absB, errB := filepath.Abs(b)
+	if errA != nil || errB != nil {
+		return filepath.Clean(a) == filepath.Clean(b)
+	}
+	return absA == absB
+}
+
 func (i *InterfaceCollection) Append(ctx context.Context, iface *config.Interface) error {
 	collectionFilepath := i.outFilePath.String()
 	interfaceFilepath := iface.Config.FilePath().String()
@@ -136,7 +148,7 @@ func (i *InterfaceCollection) Append(ctx context.Context, iface *config.Interfac
 		Str("interface-filepath", interfaceFilepath).
 		Logger()
 
-	if collectionFilepath != interfaceFilepath {
+	if !sameFile(collectionFilepath, interfaceFilepath) {
 		msg := "all mocks in an InterfaceCollection must have the same output file path"
 		log.Error().Msg(msg)
 		return errors.New(msg)
@@ -270,9 +282,15 @@ func (r *RootApp) Run() error {
 			filePath := ifaceConfig.FilePath().Clean()
 			ifaceLog.Info().Str("collection", filePath.String()).Msg("adding interface to collection")
 
-			_, ok := mockFileToInterfaces[filePath.String()]
+			// Mocks belong to the same collection when they go to the same
+			// file, however its path was spelled (relative, absolute, ...).
+			fileKey := filePath.String()
+			if abs, err := filepath.Abs(fileKey); err == nil {
+				fileKey = abs
+			}
+			_, ok := mockFileToInterfaces[fileKey]
 			if !ok {
-				mockFileToInterfaces[filePath.String()] = NewInterfaceCollection(
+				mockFileToInterfaces[fileKey] = NewInterfaceCollection(
 					iface.Pkg.PkgPath,
 					filePath,
 					iface.Pkg,
@@ -280,7 +298,7 @@ func (r *RootApp) Run() error {
 					*ifaceConfig.Template,
 				)
 			}
-			if err := mockFileToInterfaces[filePath.String()].Append(
+			if err := mockFileToInterfaces[fileKey].Append(
 				ctx,
 				config.NewInterface(
 					iface.Name,
